@@ -92,6 +92,23 @@ def histories(ctx, d, th):
     p2, n2 = lf.sample(denied, 400 if th else 80, ctx.seed, denied_load)
     picked += p2
     nclasses += n2
+    # ... and the SAME policy value loaded again (Loader!PolIds): what one call was asked about no_new_privs says nothing about the next -
+    # in particular for calls that are equal in everything else (policy, flags)
+    r3 = ctx.tlc("LoaderGen", lf.gen_cfg("{pool, t1, t2}", 3 if th else 2, '{{}, {"TSYNC"}}', '{"valid"}', "{t1, t2}", False, polids="{1}"), name="LoaderGenC11same", timeout=3000)
+    ctx.cov["states"] -= r3["distinct"]
+    ctx.cov["transitions"] -= r3["generated"]
+
+    def flips(h):
+        loads = [e for e in h["hist"] if e["op"] == "load"]
+        return any(a["flags"] == b["flags"] and a["nnp"] != b["nnp"] for a, b in zip(loads, loads[1:]))
+    same = [h for h in lf.histories(r3["out"]) if sum(1 for e in h["hist"] if e["op"] == "load") >= 2]
+    p3, n3 = lf.sample([h for h in same if flips(h)], 300 if th else 70, ctx.seed, htags)
+    p4, n4 = lf.sample([h for h in same if not flips(h)], 150 if th else 30, ctx.seed, htags)
+    if len(p3) < 20:
+        raise vlib.Machinery("only %d histories load one policy twice with equal flags and different NoNewPrivs" % len(p3))
+    ctx.cov["histories_that_load_one_policy_again_with_the_other_NoNewPrivs"] = len(p3)
+    picked += p3 + p4
+    nclasses += n3 + n4
 
     def one(h):
         script = lf.to_script(h, 3)
